@@ -134,11 +134,37 @@ _fresh_memo = {}
 
 def fresh_tables(lib, exprs, trees):
     """oks[e], cerr[e] (class of the compile error), results[e][t]: every expression compiled with an empty cache
-    and evaluated once per tree by a compiled object of its own."""
+    and evaluated once per tree by a compiled object of its own. Computed twice — the second time with the expressions
+    in reverse order — and required to agree: an outcome that depends on what was compiled before (state kept outside the
+    expression cache) is the property failing, and would otherwise poison the reference."""
     k = (tuple(exprs), tuple(trees))
     got = _fresh_memo.get(k)
     if got is not None:
         return got
+    first = _fresh_tables_once(lib, list(exprs), trees)
+    rev = _fresh_tables_once(lib, list(exprs)[::-1], trees)
+    second = tuple(x[::-1] for x in rev)
+    got = first
+    if first != second:
+        for i, e in enumerate(exprs):
+            if (first[1][i], first[2][i]) != (second[1][i], second[2][i]):
+                _unstable[k] = ('expression %r compiled alone on an emptied cache: first %r, later %r'
+                                % (e, first[2][i] or first[1][i], second[2][i] or second[1][i]))
+                break
+    if len(_fresh_memo) > 64:
+        _fresh_memo.clear()
+    _fresh_memo[k] = got
+    return got
+
+
+_unstable = {}
+
+
+def solo_unstable(exprs, trees):
+    return _unstable.get((tuple(exprs), tuple(trees)))
+
+
+def _fresh_tables_once(lib, exprs, trees):
     saved = (lib.cache.cachedCompiledExpressions, lib.cache.recentCachedExpressionStrs, lib.cache.cacheLock)
     oks, cerr, results = [], [], []
     try:
@@ -169,11 +195,7 @@ def fresh_tables(lib, exprs, trees):
             results.append(row)
     finally:
         lib.cache.cachedCompiledExpressions, lib.cache.recentCachedExpressionStrs, lib.cache.cacheLock = saved
-    got = (oks, cerr, results)
-    if len(_fresh_memo) > 64:
-        _fresh_memo.clear()
-    _fresh_memo[k] = got
-    return got
+    return (oks, cerr, results)
 
 
 class Patched(object):
@@ -331,6 +353,37 @@ class Check(PropCheck):
             sched = [i for i, th in enumerate(ths) for _ in range(2 * len(th))]
             rng.shuffle(sched)
             yield Case({'kind': 'threads', 'bound': b, 'exprs': pool, 'trees': trees, 'threads': ths, 'sched': sched}, 'threads')
+        for i in range(8 if tier == 'thorough' else 3):
+            yield Case(self.hot_threads(rng, 8, 400 if tier == 'thorough' else 300), 'threads-hot'))
+
+    HOT = ['//p[last()]', '//p[position() = last()]', '//span[last() - 1]', '//*[last() > 2]', '//p[position() < last()]',
+           '//div/p[last()]', '//span[contains(@title, "v-" || @rel)]', '//p[@n = last()]', '//span[position() = 2]',
+           '//div[last()]/span[last()]']
+
+    def fan_tree(self, rng):
+        """parents with *different* numbers of same-named children: element-dependent values (last(), position(), attribute
+        concatenations) differ from parent to parent and from tree to tree"""
+        out = []
+        for k in range(rng.randint(3, 6)):
+            kids = []
+            for j in range(rng.randint(1, 7)):
+                nm = rng.choice(['p', 'p', 'span'])
+                rel = rng.choice('abc')
+                kids.append('<%s n="%d" rel="%s" title="v-%s">%s</%s>' % (nm, rng.randint(1, 7), rel, rng.choice('abc'), rng.choice(['', 't']), nm))
+            out.append('<div n="%d">%s</div>' % (k, ''.join(kids)))
+        return '<div n="0">%s</div>' % ''.join(out)
+
+    def hot_threads(self, rng, nt, per_thread):
+        """a thread run in which every thread evaluates the same few element-dependent expressions (compiled operations
+        shared through the cache) many times, each thread mostly on its own tree"""
+        trees = [self.fan_tree(rng) for _ in range(4)]
+        ths = []
+        for i in range(nt):
+            ths.append([['q', rng.randrange(len(self.HOT)), i % 4 if rng.random() < 0.9 else rng.randrange(4), rng.randrange(2)]
+                        for _ in range(per_thread)])
+        sched = [i for i, th in enumerate(ths) for _ in range(2 * len(th))]
+        rng.shuffle(sched)
+        return {'kind': 'threads', 'bound': None, 'exprs': list(self.HOT), 'trees': trees, 'threads': ths, 'sched': sched}
 
     def rand_event(self, rng, ne, nt, recent=None, slots=True):
         r = rng.random()
@@ -664,6 +717,8 @@ class Check(PropCheck):
 
     def oracle(self, d):
         tables = self._tables(d)
+        if solo_unstable(d['exprs'], d['trees']):
+            return ('result-differs', solo_unstable(d['exprs'], d['trees']))
         if d['kind'] == 'hist':
             rows, bound = self.run_hist(d)
             slots_e = []
